@@ -12,7 +12,8 @@
        in front of the owners' models: the overflow precondition of their never-fault theorems becomes
        "the input is a real object (shorter than 2^64 bytes)". *)
 From Coq Require Import NArith ZArith Arith List Bool Lia ZifyBool ZifyNat ZifyN.
-From Carquet Require Import Base.Res Enc.BitpackModel Enc.RleModel.
+From Carquet Require Import Base.Res Enc.BitpackModel Enc.RleModel Enc.RleSafety Enc.DictModel Enc.DictRleInst.
+From Carquet Require Comp.CompBase Comp.CompMem Comp.SnappySpec Comp.SnappyModel Comp.SnappyProofs Comp.Lz4Spec Comp.Lz4Model Comp.Lz4Proofs.
 Import ListNotations.
 Local Open Scope N_scope.
 
@@ -200,3 +201,40 @@ Proof. intros. apply rle_decode_all_never_faults. Qed.
 
 Lemma rle_dec_n_count_le : forall w bs maxv ix, rle_dec_n w bs maxv = Ok ix -> N.of_nat (length ix) <= maxv.
 Proof. intros w bs maxv ix H. apply rle_decode_all_count_le in H. lia. Qed.
+
+(* ================================================================== B. dictionary decode *)
+
+(** carquet_dictionary_decode_{int32,int64,float,double}: Enc/DictModel.v (enc2 engine) over carquet's own index
+    decoder [DictRleInst.rle_dec] (width guard + decode_all).  The enc2 engine proves never-fault and the size
+    bound GIVEN that decode_all delivers at most max_values values on arbitrary bytes; that fact is
+    [decode_all_len] (Enc/RleSafety.v, lead) = [decode_all_length] above. *)
+Theorem dict_decode_never_faults_carquet : forall k dict dc indices out_count f,
+  DictModel.dict_decode_fixed DictRleInst.rle_dec k dict dc indices out_count <> Fault f.
+Proof. exact (DictRleInst.dict_decode_never_faults_rle RleSafety.decode_all_len). Qed.
+
+Theorem dict_decode_result_size_carquet : forall k dict dc indices out_count vs,
+  DictModel.dict_decode_fixed DictRleInst.rle_dec k dict dc indices out_count = Ok vs ->
+  N.of_nat (length vs) <= out_count.
+Proof. exact (DictRleInst.dict_decode_result_size_rle RleSafety.decode_all_len). Qed.
+
+(** the instance this engine extracts for the model tie is the same function *)
+Lemma rle_dec_n_eq : forall w bs maxv, rle_dec_n w bs maxv = DictRleInst.rle_dec w bs maxv.
+Proof.
+  intros w bs maxv. unfold rle_dec_n, rle_decode_all, DictRleInst.rle_dec.
+  assert (E : ((Z.of_N w <? 0)%Z || (32 <? Z.of_N w)%Z) = (32 <? w)).
+  { destruct (N.ltb_spec 32 w); destruct (Z.ltb_spec (Z.of_N w) 0); destruct (Z.ltb_spec 32 (Z.of_N w)); cbn; lia. }
+  rewrite E. destruct (32 <? w); [reflexivity|]. rewrite !N2Z.id || idtac.
+  f_equal. f_equal; lia.
+Qed.
+
+(* ================================================================== D. Snappy / LZ4: size clause *)
+
+(** the comp engine proves soundness (an OK result is the denoted content AND fits the destination); C08 needs
+    the second half on its own *)
+Theorem snappy_decompress_size_le_cap : forall s x cap, CompBase.bytes s ->
+  SnappyModel.decompress s cap = Ok x -> CompBase.nlen x <= cap.
+Proof. intros s x cap B H. exact (proj2 (SnappyProofs.snappy_decompress_sound_thm s x cap B H)). Qed.
+
+Theorem lz4_decompress_size_le_cap : forall s x cap, CompBase.bytes s ->
+  Lz4Model.decompress s cap = Ok x -> CompBase.nlen x <= cap.
+Proof. intros s x cap B H. exact (proj2 (Lz4Proofs.lz4_decompress_sound_thm s x cap B H)). Qed.
